@@ -1,6 +1,6 @@
 """C02 -- compare-and-swap never loses an update."""
 import itertools, json, os, random
-from casefmt import write_cases, decode_tok, read_obs
+from casefmt import write_cases, decode_tok, read_obs, xs, js
 from common import *
 from coreops import *
 from gen import Gen
@@ -148,6 +148,53 @@ def run_wire(v, tier, seed, work):
                      "broken_obligation": "correspondence session/C02 (Model/Session.v handle MCSet -> Core.do_insert force=false; lib.rs process_api_call)"}, no_input=True)
     v.cov["wire"] = {"cases": len(cases), "acks": acks, "disagreements": len(diffs), "rule": "random cSet/cGet/set/delete histories of 2-3 sessions on two shared keys through a real in-process server (client request path: unix socket -> protocol handlers -> process_api_call -> core); every line vs the session model; independent wire-level CAS oracle"}
 
+def run_races(v, tier, seed, work):
+    """true parallelism: n connections, each served by a task of its own on the multi-threaded runtime, send the same cSet
+    at the same moment (a barrier); round after round exactly one may win"""
+    import sessionops
+    r = random.Random(seed * 104729)
+    cases = []
+    for i in range(6 if tier == "quick" else 60):
+        n = r.choice([2, 3, 4, 8, 16, 32])
+        ops = ["cfg auth=0", "open 0"]
+        rounds = r.randint(2, 6)
+        for rd in range(rounds):
+            ops.append(f"race {n} {xs('race/k')} {js(rd)} {rd}")
+            ops.append(sessionops.R(("send", 0, {"cGet": {"transactionId": rd + 1, "key": "race/k"}})))
+        # a stale round: everybody names a version that is gone
+        ops.append(f"race {n} {xs('race/k')} {js('stale')} 0")
+        ops.append(sessionops.R(("send", 0, {"cGet": {"transactionId": 99, "key": "race/k"}})))
+        cases.append((f"race{i}", ops, n, rounds))
+    cpath = os.path.join(work, "races.txt")
+    write_cases(cpath, [(nm, ops) for nm, ops, _, _ in cases])
+    impl, model = run_engine("session", "session_driver", cpath, work, tag="-race")
+    A, B = read_obs(impl), read_obs(model)
+    winners = 0
+    for nm, ops, n, rounds in cases:
+        la = A.get(nm, [])
+        if len(la) < len(ops) or la[0] != "ok":
+            v.violation({"what": "the session engine did not complete this case", "case": nm, "engine": "session", "driver": "session_driver", "ops": ops, "broken_obligation": "correspondence session/C02"}, no_input=True)
+            return
+        for i, op in enumerate(ops):
+            if not op.startswith("race "): continue
+            res = [x for x in la[i].split(" ") if x.startswith("race:")]
+            got = res[0][5:].split(",") if res else []
+            stale = op.endswith(" 0") and i > 2
+            want_acks = 0 if stale else 1
+            if got.count("ack") != want_acks or len(got) != n or any(x not in ("ack", "err18") for x in got):
+                v.violation({"what": f"{n} clients sent the same cSet (version {op.split(' ')[-1]}) at the same moment: answers {sorted(got)}; exactly {want_acks} may be acknowledged, the others answered CasVersionMismatch",
+                             "case": nm, "engine": "session", "driver": "session_driver", "ops": ops[:i + 1]})
+                return
+            winners += want_acks
+        for i, (x, y) in enumerate(zip(la, B.get(nm, []))):
+            cx = x if x.startswith("race:") else sessionops.canon_session_line(x)
+            cy = y if y.startswith("race:") else sessionops.canon_session_line(y)
+            if cx != cy and not v.violations:
+                v.violation({"what": "concurrent csets: session model and server disagree; in every round exactly one client won", "case": nm, "engine": "session", "driver": "session_driver",
+                             "ops": ops[:i + 1], "impl": x, "model": y, "broken_obligation": "correspondence session/C02 (races)"}, no_input=True)
+    v.cov["concurrent"] = {"cases": len(cases), "rounds_won_by_exactly_one": winners,
+                           "rule": "2..32 connections, each served by its own task on the multi-threaded runtime of a real in-process server, release the same cSet at a barrier; 2..6 rounds with the version of the round, then a stale round; per round the answers are counted (exactly one Ack, the rest CasVersionMismatch; none in the stale round) and a cGet by a witness is compared with the session model (value and version of the round)"}
+
 def run(v, tier, seed):
     work = os.path.join(WORK, ID); os.makedirs(work, exist_ok=True)
     cases = list(CORPUS)
@@ -217,7 +264,8 @@ def run(v, tier, seed):
                      "broken_obligation": "correspondence core/C02 (Model/Core.v decide, do_insert)"}, no_input=True)
     if not v.violations:
         run_wire(v, tier, seed, work)
+        if not v.violations: run_races(v, tier, seed, work)
     v.cov.update({"evaluations": ncases, "distinct_nontrivial": len(nontrivial), "steps": nsteps, "disagreements": len(diffs),
                   "rule": f"corpus (rules, u64 boundary) + every interleaving at request granularity of cget->cset client programs for shapes (clients, rounds) {shapes} on one and two shared keys, with plain-set/delete disturbers ({n_int} interleavings) + {nrand} random sequences with stale/future/boundary versions; non-trivial = at least one accepted and one rejected cset",
                   "samples": samples, "accepted_csets": acc, "rejected_csets": rej, "interleavings": n_int,
-                  "concurrency_note": "request-granularity interleavings only in this engine; atomicity of requests under the multi-threaded runtime is validated by the D2 engine (see evidence key `concurrent`)"})
+                  "concurrency_note": "request-granularity interleavings in the core engine; atomicity of requests under the multi-threaded runtime: evidence key `concurrent` (races of 2..32 real connections released at a barrier)"})
